@@ -1632,3 +1632,7 @@ mod tests {
         Ok(())
     }
 }
+
+#[cfg(maidsafe_safe_network_verif)]
+#[path = "verif/record_store.rs"]
+pub mod verif;
